@@ -240,9 +240,10 @@ def retarget_reload(rng, k=0):
                            'new 12 modhigh 3200 3 0', 'new 13 modhigh 3201 3 0', 'slot 1 ship 10', 'slot 2 ship 11',
                            'rappend 1 high 12', 'rappend 1 high 13', 'fladd 1 1', 'fladd 1 2']
     setup = len(ops)
-    way = rng.choice(['retarget', 'untarget', 'stop'])
+    way = ['retarget', 'untarget', 'stop'][k % 3]
     ops += ['target 12 11', 'get 11 %d' % X]
-    ops += {'retarget': ['target 12 10'], 'untarget': ['target 12 -'], 'stop': ['state 12 2']}[way]
+    ops += {'retarget': ['target 12 10', 'get 10 %d' % X, 'get 11 %d' % X], 'untarget': ['target 12 -'],
+            'stop': ['state 12 2']}[way]
     ops += ['flrm 1 2', 'get 11 %d' % X]
     ops += rng.choice([['slot 2 ship -', 'slot 2 ship 11'], ['slot 2 ship 15', 'slot 2 ship 11'],
                        ['ssrm 1 2', 'ssadd 1 2'], ['source 1 -', 'source 1 1']])
@@ -456,15 +457,89 @@ def burst_nobase(rng, k=0):
     return 'scen:burstnobase', u.lines(), ops, meta_of(ops, u.attr_ids(), setup)
 
 
+def refused_join(rng, k=0):
+    """a fit that already belongs to a fleet is refused by another fleet (ValueError); a booster then joins
+    (or leaves) that other fleet with its burst already running: the refused fit must stay out of it"""
+    BID, BVAL = int(AttrId.warfare_buff_1_id), int(AttrId.warfare_buff_1_value)
+    T1 = 1010
+    u = U()
+    for a in (T1, BID, BVAL):
+        u.attr(a)
+    burst = int(BUFF_EFFECTS[0])
+    u.effect(burst, EC.active)
+    u.buff(10, F.item, T1, OP.post_percent, AG.maximum)
+    u.type(3100, 50, int(TC.ship), {T1: 1000})
+    u.type(3200, 51, int(TC.module), {BID: 10, BVAL: 20}, [burst], default=burst)
+    ops = base_world(3) + ['new 10 ship 3100 1 0', 'new 11 ship 3100 1 0', 'new 14 ship 3100 1 0',
+                           'new 12 modhigh 3200 3 0', 'slot 1 ship 10', 'slot 2 ship 11', 'slot 3 ship 14',
+                           'rappend 2 high 12', 'fladd 1 1']
+    setup = len(ops)
+    ops += ['fladd 2 1', 'get 10 %d' % T1]
+    ops += [['fladd 2 2'], ['fladd 2 2', 'flrm 2 2', 'fladd 2 2'], ['fladd 2 3', 'fladd 2 2']][k % 3]
+    ops += ['get 10 %d' % T1, 'get 11 %d' % T1, 'get 14 %d' % T1, 'flrm 1 1', 'get 10 %d' % T1, 'fladd 2 1',
+            'get 10 %d' % T1, 'state 12 2', 'get 10 %d' % T1, 'flrm 2 1', 'flrm 2 2']
+    return 'scen:refusedjoin', u.lines(), ops, meta_of(ops, u.attr_ids(), setup)
+
+
+def unloaded_container(rng, k=0):
+    """the current source knows the charge's type but not its module's: the module is unloaded, the charge is
+    loaded; the module's state still is the charge's state, and changes of it reach the charge"""
+    X, S = 1010, 1001
+    u = U()
+    for a in (X, S):
+        u.attr(a)
+    u.effect(2001, [EC.active, EC.online, EC.overload][k % 3], [U.mod(F.item, D.ship, X, OP.post_percent, S)])
+    u.effect(2002, EC.active)
+    u.type(3100, 50, int(TC.ship), {X: 100})
+    u.type(3200, 51, int(TC.module), {}, [2002], default=2002)
+    u.type(3300, 52, int(TC.charge), {S: 50}, [2001], default=2001 if k % 3 == 0 else None)
+    u2 = U()
+    u2.u.attrs, u2.u.effects, u2.u.buffs = u.u.attrs, u.u.effects, u.u.buffs
+    u2.u.types = {t: v for t, v in u.u.types.items() if t != 3200}
+    st = {0: 3, 1: 2, 2: 4}[k % 3]
+    ops = ['solsys 1', 'fit 1 1', 'source 1 1', 'ssadd 1 1', 'new 10 ship 3100 1 0', 'new 12 modhigh 3200 1 0',
+           'new 30 charge 3300 1 0', 'slot 1 ship 10', 'rappend 1 high 12', 'charge 12 30']
+    setup = len(ops)
+    ops += ['get 10 %d' % X, 'source 1 2', 'get 10 %d' % X, 'state 12 %d' % st, 'get 10 %d' % X,
+            'state 12 1', 'get 10 %d' % X, 'state 12 %d' % st, 'source 1 1', 'get 10 %d' % X, 'source 1 2',
+            'get 10 %d' % X, 'charge 12 -', 'get 10 %d' % X]
+    return 'scen:unloadedcont', u.u.lines(1) + u2.u.lines(2), ops, meta_of(ops, u.attr_ids(), setup)
+
+
+def drone_target(rng, k=0):
+    """a projected effect whose target is a drone (of the same or of another fit), re-established by a
+    reload: modules are loaded before drones, so the target is loaded after the projection was applied"""
+    X, S = 1010, 1001
+    u = U()
+    for a in (X, S):
+        u.attr(a)
+    u.effect(2001, EC.target, [U.mod(F.item, D.target, X, OP.post_percent, S)])
+    u.type(3100, 50, int(TC.ship), {X: 100})
+    u.type(3200, 51, int(TC.module), {S: 50}, [2001], default=2001)
+    u.type(3400, 53, int(TC.drone), {X: 100})
+    ops = base_world(2) + ['new 10 ship 3100 1 0', 'new 11 ship 3100 1 0', 'new 12 modhigh 3200 3 0',
+                           'new 13 modhigh 3200 3 0', 'new 20 drone 3400 1 0', 'new 21 drone 3400 1 0',
+                           'slot 1 ship 10', 'slot 2 ship 11', 'rappend 1 high 12', 'rappend 2 high 13',
+                           'sadd 1 drones 20', 'sadd 2 drones 21']
+    setup = len(ops)
+    ops += ['target 12 %d' % [20, 21, 21][k % 3], 'target 13 %d' % [21, 20, 21][k % 3], 'get 20 %d' % X,
+            'get 21 %d' % X]
+    ops += [['source 1 -', 'source 1 1'], ['ssrm 1 1', 'ssadd 1 1'], ['ssrm 1 2', 'ssadd 1 2'],
+            ['sremove 2 drones 21', 'sadd 2 drones 21']][k % 4]
+    ops += ['get 20 %d' % X, 'get 21 %d' % X, 'target 12 -', 'get 20 %d' % X, 'get 21 %d' % X]
+    return 'scen:dronetarget', u.lines(), ops, meta_of(ops, u.attr_ids(), setup)
+
+
 SCENARIOS = [cap_moves, resist_moves, chain_over_projection, burst_charge, buff_tie, retarget_reload, slot_index,
-             propulsion, ancillary, propulsion_batch, rejected_assignment, autocharge_state, burst_nobase]
+             propulsion, ancillary, propulsion_batch, rejected_assignment, autocharge_state, burst_nobase,
+             refused_join, unloaded_container, drone_target]
 
 
 def scenarios(rng, tier):
     n = 3 if tier == 'quick' else 60
     out = []
     for fn in SCENARIOS:
-        for k in range(max(n, {burst_charge: 6, propulsion_batch: 4, burst_nobase: 4}.get(fn, n))):
+        for k in range(max(n, {burst_charge: 6, propulsion_batch: 4, burst_nobase: 4, drone_target: 4}.get(fn, n))):
             name, ul, ops, meta = fn(rng, k)
             out.append(('%s%d' % (name, k), ul, ops, meta))
     return out
